@@ -154,6 +154,19 @@ fn step(ctx: &Ctx, h: &Hist) -> Result<Option<Vec<u8>>, String> {
             if r::x25519_base(&sk) != pk {
                 return Err(format!("PublicKey of '{}' is not the X25519 public key of its private key", name));
             }
+            // ... and the tool's own unlock agrees (in-process seam, or `key extract-pub` when the seam is unavailable)
+            if kra::AVAILABLE {
+                match guarded(|| kra::unlock(sk_str, PASSWORDS[p as usize].as_bytes())) {
+                    Ok(Some(k)) if k[..] == sk[..] => {}
+                    Ok(other) => return Err(format!("key '{}' is not unlocked by the tool itself with its own password {:?} ({})", name, PASSWORDS[p as usize], if other.is_some() { "another key comes out" } else { "refused" })),
+                    Err(m) => return Err(format!("unlocking key '{}' panicked: {}", name, m)),
+                }
+            } else {
+                let o = proc::run(&Cmd::new(&["key", "extract-pub", sk_str, "--env-pass"]).env("KESTREL_PASSWORD", PASSWORDS[p as usize]), &sc.0);
+                if !o.ok() || !String::from_utf8_lossy(&o.stdout).contains(&e.pk) {
+                    return Err(format!("key '{}' is not usable with its own password {:?}: {}", name, PASSWORDS[p as usize], o.summary()));
+                }
+            }
         }
     }
     // entries that were in the initial file are still there
@@ -320,6 +333,10 @@ fn limit_names(rep: &Report) {
         "n".repeat(128),
         "n".repeat(129),
         format!("{}\u{1F511}", "n".repeat(125)),    // 129 bytes, the last character straddles the limit
+        "   ".to_string(),                          // nothing but blanks
+        "\t".to_string(),
+        " \u{a0} ".to_string(),
+        "".to_string(),
     ];
     names.par_iter().for_each(|name| {
         rep.eval(1);
@@ -341,7 +358,7 @@ fn limit_names(rep: &Report) {
             }
             let text = String::from_utf8(after).map_err(|_| "keyring not UTF-8".to_string())?;
             match classify(&text) {
-                Class::WellFormed(es) if es.iter().any(|e| e.name == *name) && es.len() == 3 => {}
+                Class::WellFormed(es) if es.iter().any(|e| e.name == name.trim() || e.name == *name) && es.len() == 3 => {}
                 other => return Err(format!("after `key generate` accepted a {}-character / {}-byte name the keyring is no longer well-formed (REF: {:?}): every key in it is unusable", name.chars().count(), name.len(), match other { Class::WellFormed(e) => format!("{} entries", e.len()), Class::Bad(w) => w.to_string(), Class::Open => "open".into() })),
             }
             if kra::AVAILABLE {
